@@ -34,6 +34,21 @@ CHECKS["C14"] = ("model_checking",
          "Lit.tla defines element type, length and code units of every character constant and (concatenated) string literal per target; TLC checks on ~47k (quick) / 98k (thorough) exhaustive boundary cases that the transcription of the decoder/encoders with deviations off refines it and emits every case plus random literals (-simulate); each is compiled by the real cproc-qbe and its data compared byte for byte, rejects must exit 1 with a diagnostic, accepted cases re-run under ASan/UBSan.",
          "trusted: TLC, ilparse, the C11 reading in Decl (audited on every accepted case against gcc and clang --target, sampled rejects). Implementation-defined classes (multi-char constants, mixed wide prefixes, UCNs) excluded as unspec. Literals observed through static initialisers, sizeof and _Generic only.",
          "DESIGN.md §5 C14")
+CHECKS["C10"] = ("model_checking",
+         "TLA+ static-semantics catalogue (CStatic.tla: 127 named constraint rules + 16 unsupported-feature predicates) with rule-exact mutation actions checked by TLC; every generated program replayed into cproc-qbe",
+         "TLC checks that each Violate_r / Use_u witness violates exactly its claimed rule and that bases and benign twins are valid, and enumerates rule x position (file, block, nested expression, macro body) x base programs plus a fragment-composition universe; each program is compiled by the real cproc-qbe: valid => exit 0 with empty stderr; invalid or unsupported => exit 1 with a located diagnostic matching an error()/fatal() format string extracted from the sources at run time, never 0, a signal or a hang. Diagnostic-site coverage is measured (message matching; gcov in thorough) and reported in evidence.",
+         "trusted: the renderer (attributes -> C text) and the rule predicates, audited per class by gcc -std=c11 -pedantic-errors (disagreement = machinery error); classes whose outcome the standard leaves open are excluded and listed; one violation per program; wording/location of diagnostics is C11's business. Known findings keyed by rule.",
+         "DESIGN.md §5 C10")
+CHECKS["C11"] = ("model_checking",
+         "TLA+ item-level presumed-location specification (Loc.tla) vs transcription of nextchar/scankind/directive (ScanOps.tla) checked by TLC; layout programs replayed: token dump and diagnostic prefix compared",
+         "All layout programs of <= 2 (quick) / <= 3 (thorough) items over 24 item kinds (splices, multi-line comments, blank lines, #line and line markers with 1/7/2147483647/010, pragma, multi-line macro invocations) plus 8 violation items: file and line of every token (H1 dump) and of the first diagnostic (`file:line:col: error:` on stderr of the plain build) are compared with the declarative presumed location.",
+         "trusted: Loc.tla item tables (audited against gcc -E with __LINE__/__FILE__), H1 hook, Python glue; columns only counted; macro-body tokens, EOF and look-ahead-token diagnostics not asserted; known deviations are named and keyed.",
+         "DESIGN.md §5 C11")
+CHECKS["C13"] = ("model_checking",
+         "TLA+ declarative maximal-munch lexer (Tok.tla/Scan.tla Lex) vs transcription of scan.c and pp.c keyword() (ScanOps.tla) checked by TLC; exhaustive short texts replayed through the -E token dump",
+         "TLC enumerates all texts <= 3/4 over the punctuator alphabet, <= 3/4 over the literal alphabet, <= 4/5 over number/prefix alphabets, all keyword spellings with one-character perturbations (keyword table extracted from pp.c at run time, binary search modelled), splices and comments at every position, random long texts; Lex(t) is the oracle for kind, spelling and space flag of every token `cproc-qbe -E` delivers; lexical errors must exit 1 with a located diagnostic; `enum { w };` accepted iff w is not a keyword.",
+         "trusted: Tok/Scan.tla (Lex audited against clang -dump-tokens), H1 hook, Python glue; `::` and u8'c' per C23; trigraphs, UCN ranges outside the model; known: digraphs, UCNs.",
+         "DESIGN.md §5 C13")
 NOT_YET = {}
 
 def main():
